@@ -170,6 +170,14 @@ class CtAnalysis(taint.FnAnalysis):
         self._cur_rv = rv
         super().assign(place, rv, st, ctrl, line)
         self._cur_rv = None
+        # the bool of a declassified status test (`ok != 0` in an Option/bool-returning function) is public, exactly like the
+        # branch on it: `(ok != 0).then_some(r)` and `if ok != 0 { Some(r) } else { None }` give the same public discriminant
+        if rv[0] == "bin" and rv[1] in ("Eq", "Ne") and len(place) == 1 and self._returns_option_or_bool():
+            sr = self.eng.status_rule
+            for x, y in ((rv[2], rv[3]), (rv[3], rv[2])):
+                if y[0] == "k" and y[1] is not None and int(y[1]) in (0, 0xFFFFFFFF) and sr.status_expr(self.body, x):
+                    self.st_write(st, (place[0], ()), ctrl, True)
+                    break
 
     def _returns_option_or_bool(self):
         rt = self.f.ty(self.fn["locals"][0][0])
